@@ -127,8 +127,12 @@ func bindRules(c *Ctx, cloneRule, templateRule string) {
 	// statement template fields assigned only at construction
 	// (the field is found by its type, *updogv1.Query, in the statement struct or in a struct it embeds: the statement
 	// kinds may share a base struct that holds the query)
-	for _, tn := range []string{"fileStmt", "grpcStmt"} {
-		t := c.w.namedType(pkgDriver, tn)
+	// (the statement types: the implementers of driver.Stmt, rules_ag10.go; today's names only label a type that is missing)
+	for k, t := range []*types.Named{c.a.FileStmtT, c.a.GrpcStmtT} {
+		tn := []string{"fileStmt", "grpcStmt"}[k]
+		if t != nil {
+			tn = t.Obj().Name()
+		}
 		qs := stmtQueryFields(t)
 		if len(qs) == 0 {
 			c.r.undecided(templateRule, tn+".q", "statement type not found, or it has no field that holds the parsed query (*updogv1.Query), directly or in an embedded struct")
@@ -516,12 +520,17 @@ func c12Errflow(c *Ctx) {
 
 func c12Cols(c *Ctx) {
 	const rule = "C12.cols"
-	rowsT := c.w.namedType(pkgDriver, "rows")
+	// (the rows type = the implementer of driver.Rows; cols = its []string field, the one Columns() returns; rules_ag10.go)
+	rowsT := c.a.RowsT
 	if rowsT == nil {
-		c.r.undecided(rule, "rows", "type not found")
+		c.r.undecided(rule, "rows", "type not found"+c.a.SH.whyText())
 		return
 	}
-	cols := structFieldNamed(rowsT, "cols")
+	cols := c.a.RowsColsF
+	if cols == nil {
+		c.r.undecided(rule, "rows", "the column-list field of the rows type was not found"+c.a.SH.whyText())
+		return
+	}
 	// (a) newRows: cols = append(groupBy, "count")
 	fn := c.a.NewRows
 	var groupBy ssa.Value
@@ -638,13 +647,18 @@ func c12Cols(c *Ctx) {
 		c12ColsSliceRows(c, rule, rowsT, storage, next)
 		return
 	}
-	rowT := c.w.namedType(pkgDriver, "row")
+	// (the row type = element type of the slice-of-struct field; fields = its []string, count = its uint64 field; rules_ag10.go)
+	rowT := c.a.RowT
 	if kind == rowsStruct {
 		if n := namedOf(storage.Type().Underlying().(*types.Slice).Elem()); n != nil {
 			rowT = n
 		}
 	}
-	fieldsF, countF := structFieldNamed(rowT, "fields"), structFieldNamed(rowT, "count")
+	fieldsF, countF := c.a.RowFieldsF, c.a.RowCountF
+	if rowT == nil || rowT != c.a.RowT || fieldsF == nil || countF == nil {
+		c.r.undecided(rule, "rows.Next", "the row type or its value-list / count fields were not found"+c.a.SH.whyText(), c.w.pos(next.Pos()))
+		return
+	}
 	okCount, okFields := false, false
 	var dest ssa.Value
 	if len(next.Params) >= 2 {
@@ -812,9 +826,9 @@ func numInputRule(c *Ctx, rule string) {
 // into the list.
 func c12RowsFresh(c *Ctx) {
 	const rule = "C12.rowsfresh"
-	rowsT := c.w.namedType(pkgDriver, "rows")
+	rowsT := c.a.RowsT
 	if rowsT == nil {
-		c.r.undecided(rule, "<anchor>", "rows type not found")
+		c.r.undecided(rule, "<anchor>", "rows type not found"+c.a.SH.whyText())
 		return
 	}
 	fld, kind := rowsStorage(rowsT)
